@@ -1516,7 +1516,11 @@ fn main() {
     jobs.push(("eval", Box::new(move || eval_layer!(r, PolyBase<Var3<'x', 'y', 'z', usize>, i64>, 3, b.terms, vec![-1, 0, 2], |p, pt| p.eval(&pt[0], &pt[1], &pt[2])))));
     let results: std::sync::Mutex<Vec<(usize, Value)>> = std::sync::Mutex::new(vec![]);
     run.par_for_threads(jobs.len(), 6, |i| {
-        let v = (jobs[i].1)();
+        let t0 = std::time::Instant::now();
+        let mut v = (jobs[i].1)();
+        if let Some(o) = v.as_object_mut() {
+            o.insert("wall_s".into(), json!((t0.elapsed().as_secs_f64() * 100.0).round() / 100.0));
+        }
         results.lock().unwrap().push((i, v));
     });
     let mut results = results.into_inner().unwrap();
